@@ -38,7 +38,8 @@ M0 == [enums |-> [Color |-> {"RED", "GREEN"}],
   Named  |-> [kind |-> "interface", bases |-> <<"Node">>, resolvers |-> <<>>, fields |-> <<Fld("name", "label", TStr, Req)>>],
   User   |-> [kind |-> "object", bases |-> <<"Named">>,
               fields |-> <<Fld("age", "", TInt, DfVal(DInt(0))), Fld("u", "", TUnd(TInt), DfUndef)>>,
-              resolvers |-> <<[name |-> "greet", params |-> <<Prm("times", TInt, DfVal(DInt(1)))>>, ret |-> TList(TStr)]>>],
+              resolvers |-> <<[name |-> "greet", params |-> <<Prm("times", TInt, DfVal(DInt(1)))>>, ret |-> TList(TStr),
+                               src |-> "['hi'] * times", v |-> VList(<<DStr("hi")>>), sel |-> TRUE]>>],
   Bot    |-> [kind |-> "object", bases |-> <<"Named">>, resolvers |-> <<>>, fields |-> <<Fld("model", "", TStr, DfVal(DStr("m")))>>],
   Mid    |-> [kind |-> "hidden", bases |-> <<"Named">>, resolvers |-> <<>>, fields |-> <<Fld("level", "", TInt, DfVal(DInt(1)))>>],
   Deep   |-> [kind |-> "object", bases |-> <<"Mid">>, resolvers |-> <<>>, fields |-> <<Fld("depth", "", TInt, DfVal(DInt(2)))>>],
@@ -47,15 +48,28 @@ M0 == [enums |-> [Color |-> {"RED", "GREEN"}],
   \* two parametrisations of ONE generic class Box[T] (named by a type_name factory): the type variable is
   \* substituted in the field, in the resolver's return type and in its parameter
   IntBox |-> [kind |-> "object", bases |-> <<>>, fields |-> <<Fld("item", "", TInt, Req)>>,
-              resolvers |-> <<[name |-> "first", params |-> <<>>, ret |-> TInt],
-                              [name |-> "has", params |-> <<Prm("item", TInt, Req)>>, ret |-> TBool]>>],
+              resolvers |-> <<[name |-> "first", params |-> <<>>, ret |-> TInt, src |-> "self.item", v |-> [k |-> "attr", n |-> "item"], sel |-> TRUE],
+                              [name |-> "has", params |-> <<Prm("item", TInt, Req)>>, ret |-> TBool, src |-> "item == self.item", v |-> DBool(TRUE), sel |-> FALSE]>>],
   StrBox |-> [kind |-> "object", bases |-> <<>>, fields |-> <<Fld("item", "", TStr, Req)>>,
-              resolvers |-> <<[name |-> "first", params |-> <<>>, ret |-> TStr],
-                              [name |-> "has", params |-> <<Prm("item", TStr, Req)>>, ret |-> TBool]>>],
+              resolvers |-> <<[name |-> "first", params |-> <<>>, ret |-> TStr, src |-> "self.item", v |-> [k |-> "attr", n |-> "item"], sel |-> TRUE],
+                              [name |-> "has", params |-> <<Prm("item", TStr, Req)>>, ret |-> TBool, src |-> "item == self.item", v |-> DBool(TRUE), sel |-> FALSE]>>],
   Child  |-> [kind |-> "object", bases |-> <<>>, resolvers |-> <<>>, fields |-> <<Fld("c", "", TInt, Req)>>],
   \* Part itself flattens Inner: through Holder.flat the fields of Inner are reached across TWO levels of flattening
-  Inner  |-> [kind |-> "object", bases |-> <<>>, resolvers |-> <<>>, fields |-> <<Fld("deep_d", "", TInt, Req)>>],
-  Part   |-> [kind |-> "object", bases |-> <<>>, resolvers |-> <<>>,
+  \* the flattened classes declare resolvers returning OBJECT types (directly, Optional, in a list) and an interface
+  Inner  |-> [kind |-> "object", bases |-> <<>>, fields |-> <<Fld("deep_d", "", TInt, Req)>>,
+              resolvers |-> <<[name |-> "opt_kid", params |-> <<>>, ret |-> TOpt(TObj("Child")), src |-> "Child(c=self.deep_d)",
+                               v |-> VInst("Child", << <<"c", DInt(77)>> >>), sel |-> FALSE],
+                              [name |-> "inner_kid", params |-> <<>>, ret |-> TObj("Child"), src |-> "Child(c=41)",
+                               v |-> VInst("Child", << <<"c", DInt(41)>> >>), sel |-> TRUE]>>],
+  Part   |-> [kind |-> "object", bases |-> <<>>,
+              resolvers |-> <<[name |-> "kid", params |-> <<Prm("bump", TInt, DfVal(DInt(0)))>>, ret |-> TObj("Child"), src |-> "Child(c=40 + bump)",
+                               v |-> VInst("Child", << <<"c", DInt(40)>> >>), sel |-> TRUE],
+                              [name |-> "kids", params |-> <<>>, ret |-> TList(TObj("Child")), src |-> "[self.child, Child(c=2)]",
+                               v |-> VList(<<VInst("Child", << <<"c", DInt(1)>> >>)>>), sel |-> FALSE],
+                              [name |-> "no_kid", params |-> <<>>, ret |-> TOpt(TObj("Child")), src |-> "None", v |-> DNull, sel |-> TRUE],
+                              [name |-> "leaf_r", params |-> <<>>, ret |-> TObj("Leaf"), src |-> "Leaf(n=5)",
+                               v |-> VInst("Leaf", << <<"n", DInt(5)>>, <<"opt_s", DNull>>, <<"col", VEnum("Color", "RED")>>, <<"sc", DInt(3)>>,
+                                                      <<"tags", VList(<<>>)>>, <<"lit", DStr("x")>> >>), sel |-> TRUE]>>,
               fields |-> <<Fld("part_n", "", TInt, Req), Fld("child", "", TObj("Child"), Req),
                            [Fld("inner", "", TObj("Inner"), Req) EXCEPT !.flat = TRUE]>>],
   Holder |-> [kind |-> "object", bases |-> <<>>, resolvers |-> <<>>,
